@@ -221,6 +221,14 @@ def oracles(events, upto):
                             rows |= set(range(r[1], r[2] + 1))
                     if rows and rows != elems(p["seqs"]):
                         fails.append(("C06" if n in restarted else "C02", "node %d lists seqs %s of version (%d,%d) as received but its seq rows cover %s (event %d)" % (n, sorted(elems(p["seqs"])), b["a"], p["v"], sorted(rows), ev["i"])))
+                # whatever was received of a version and is still on disk is known to the in-memory bookkeeping
+                pvs = {p["v"] for p in b["partials"]}
+                for r in b["seqRows"]:
+                    held = r[0] <= b["max"] and r[0] not in elems(b["needed"])    # rows of a held version wait for the meta clear (S2r)
+                    if r[0] not in pvs and not held:
+                        fails.append(("C06" if n in restarted else "C02", "node %d has the seqs %d..=%d of version (%d,%d) on disk but its bookkeeping has no record of that partially received version%s (event %d)"
+                                      % (n, r[1], r[2], b["a"], r[0], ": it was forgotten by the restart, nothing re-triggers its apply and it is not advertised" if n in restarted else "", ev["i"])))
+                        break
                 if sorted(map(tuple, b["gapRows"])) != sorted(map(tuple, b["needed"])):
                     fails.append(("C02", "gap rows differ from the in-memory needed set at node %d (event %d)" % (n, ev["i"])))
             last_post[n] = post
